@@ -36,7 +36,9 @@ RULE = ("complete enumeration of (command in {onboard, unlock, changepin, pubkey
         "chars / digits only / non-alphanumeric / 9 chars / trailing newline / CR / NUL / leading "
         "space / non-ASCII digit / each of the 66 non-alphanumeric ASCII bytes at the head, inside, at the "
         "tail / absent-then-typed; any-pin flag; "
-        "answer yes / no / n / other-then-yes / other-then-no; no-unlock flag; new-PIN classes); "
+        "answer yes / no / n / other-then-yes / other-then-no; no-unlock flag; new-PIN classes), "
+        "the functions called directly and - for devices that echo, in bootloader or signer "
+        "mode - through adm_ledger.py / adm_sgx.py with a command line; "
         "non-trivial = combination in which exactly one precondition fails, or all hold; "
         "distinct = distinct combinations")
 ASSUMPTIONS = [
@@ -123,6 +125,12 @@ def grid(tier, seed):
                                 any_pin=anyp, no_unlock=nou))
         for nou in (False, True):
             out.append(dict(st, cmd="pubkeys", pin="valid", any_pin=False, no_unlock=nou))
+    # the same through the programs an operator starts (what can be written on a command line)
+    for c in list(out):
+        if c["echo"] and c["onb"] != "error" and c["mode"] in (BOOT, SIGNER) and \
+                "\x00" not in (PINS.get(c.get("pin")) or "") and \
+                "\x00" not in (PINS.get(c.get("new_pin", "valid")) or ""):
+            out.append(dict(c, via="program"))
     # one character outside the policy, every such ASCII byte, on a device that would
     # otherwise be onboarded / have its PIN changed
     for plat, pin in itertools.product(PLATS, BYTE_PINS):
@@ -266,6 +274,31 @@ def run_case(c):
             pass
     fn = {"onboard": onboard.do_onboard, "unlock": unlock.do_unlock,
           "changepin": changepin.do_changepin, "pubkeys": pubkeys.do_get_pubkeys}[cmd]
+    if c.get("via") == "program":
+        # the command as an operator runs it: adm_ledger.py / adm_sgx.py with a command line
+        import adm_ledger
+        import adm_sgx
+        argv = [cmd]
+        if opt_pin is not None:
+            argv += ["-p" if plat == "Ledger" else "-P", opt_pin]
+        if c["any_pin"]:
+            argv.append("-a")
+        if c.get("no_unlock"):
+            argv.append("-u")
+        if opts.new_pin is not None:
+            argv += ["-n", opts.new_pin]
+        argv += ["-o", opts.output_file_path]
+
+        def fn(_):
+            saved_argv = sys.argv
+            sys.argv = ["adm"] + argv
+            try:
+                (adm_ledger if plat == "Ledger" else adm_sgx).main()
+            except SystemExit as e:
+                if e.code not in (0, None):
+                    raise misc.AdminError("exit status %r" % (e.code,))
+            finally:
+                sys.argv = saved_argv
     out = io.StringIO()
     exc = None
     saved_stdin = sys.stdin
@@ -297,6 +330,8 @@ def run_case(c):
     seedish = [e for e in apdus if e[2][1] in SEEDISH]
     pinish = [e for e in apdus if e[2][1] in PINISH]
     labels = ["cmd:" + cmd, "plat:" + plat]
+    if c.get("via") == "program":
+        labels.append("via:program")
 
     # ---- what the operator's PIN is for this run
     if PINS[pin_class] is not None:
@@ -457,7 +492,7 @@ REQUIRED_LABELS = {t: ["onboard:done", "onboard:refused", "unlock:done", "unlock
                        "unlock:wrong-pin", "changepin:done", "changepin:refused",
                        "pubkeys:written", "pubkeys:refused", "plat:Ledger", "plat:SGX",
                        "unlock:done-with-typed-pin", "onboard:decided",
-                       "unlock:device-swapped-at-prompt"]
+                       "unlock:device-swapped-at-prompt", "via:program"]
                    for t in ("quick", "thorough")}
 
 
